@@ -103,3 +103,43 @@ Definition acts (gd : guard) (g : pgroup) (k : option str) : bool :=
   | GuardFilter => true
   | NoGuard => true
   end.
+
+(** ---- the privilege WRITE path: UserManager::add_user / update_user (user/mod.rs) ----
+    The stored record keeps the flags and the two lists; [pparam] is
+    PrivilegeGroupOptionParam (every field optional: None = "not edited"). *)
+Record pparam := mkPp {
+  p_wl_all : option bool;
+  p_wl : option (list str);
+  p_bl_all : option bool;
+  p_bl : option (list str) }.
+
+Record urec := mkUr { u_flags : option N; u_wl : list str; u_bl : list str }.
+
+Definition olist (o : option (list str)) : list str := match o with Some l => l | None => [] end.
+Definition obool (o : option bool) (d : bool) : bool := match o with Some b => b | None => d end.
+
+Definition store_group (g : pgroup) : urec := mkUr (Some (get_flags g)) (olist (wl g)) (olist (bl g)).
+
+Definition urec_group (u : urec) : pgroup :=
+  build_namespace_privilege (match u_flags u with Some f => f | None => 0 end) (u_wl u) (u_bl u).
+
+(** add_user: PrivilegeGroup::all(), lists replaced by the parameter's (None included), the
+    two booleans only when given *)
+Definition add_user_priv (p : option pparam) : urec :=
+  store_group (match p with
+               | None => pg_all
+               | Some p => mkPg true (obool (p_wl_all p) true) (p_wl p) (obool (p_bl_all p) false) (p_bl p)
+               end).
+
+(** update_user: without a parameter the stored privilege is untouched; with one every given
+    field REPLACES the stored one (an empty list included), enabled := true *)
+Definition update_user_priv (u : urec) (p : option pparam) : urec :=
+  match p with
+  | None => u
+  | Some p =>
+      let g := urec_group u in
+      store_group (mkPg true (obool (p_wl_all p) (wl_all g))
+                        (match p_wl p with Some l => Some l | None => wl g end)
+                        (obool (p_bl_all p) (bl_all g))
+                        (match p_bl p with Some l => Some l | None => bl g end))
+  end.
